@@ -1,7 +1,7 @@
 META = {
     "level": "model_checking",
     "technique": "symbolic TLA+ model of RFC 4253 7.2 key derivation and of the letter selection in _activate_outbound/_activate_inbound for a client and a server over two key exchanges (KeyDerivation.tla), model-checked by TLC with seeded defects; the real _compute_key run with a recording hash and its hash-call structure checked by TLC; real handshakes for every cipher x MAC pair with logging Transport/Packetizer subclasses, the requested letters, sizes, installed values and their equality across the two peers checked by TLC; values compared with an independent RFC implementation",
-    "text": "TLC checks on the model that the keys installed by both roles are exactly the RFC derivation (letters A/C/E client-to-server, B/D/F server-to-client, session id of the first exchange, extension over K1..Ki), that out(client) = in(server) and vice versa, that no key is shared between directions, purposes or exchanges, and that swapping the letters in both roles, extending with the last digest only, or overwriting the session id at re-key is noticed; _compute_key is called for every letter, every kex hash (sha1/256/384/512) and lengths 1..512 with a recording hash: TLC checks each hash input is K || H || X || session_id resp. K || H || K1..Ki and the driver compares the bytes with an RFC 4253 7.2 re-implementation; real client/server sessions (every cipher x MAC, rotating kex algorithms, with a re-key) are logged and TLC checks letters, sizes, cross-peer equality and distinctness",
+    "text": "TLC checks on the model that the keys installed by both roles are exactly the RFC derivation (letters A/C/E client-to-server, B/D/F server-to-client, session id of the first exchange, extension over K1..Ki), that out(client) = in(server) and vice versa, that no key is shared between directions, purposes or exchanges, and that swapping the letters in both roles, extending with the last digest only, overwriting the session id at re-key, or keeping the first exchange's hash function for later exchanges is noticed; _compute_key is called for every letter, every kex hash (sha1/256/384/512) and lengths 1..512 with a recording hash: TLC checks each hash input is K || H || X || session_id resp. K || H || K1..Ki and the driver compares the bytes with an RFC 4253 7.2 re-implementation; real client/server sessions (every cipher x MAC, rotating kex algorithms, with re-keys to kex methods of another hash family; every installed key compared with the RFC derivation under that exchange's own hash) are logged and TLC checks letters, sizes, cross-peer equality and distinctness",
     "note": "trusted: TLC, hashlib, the 20-line RFC 4253 7.2 re-implementation and RFC key-size tables in harness/drivers/packet.py; the cipher key itself is observed as the argument of _get_engine (the engine does not expose it), MAC key and GCM IV as arguments of set_*_cipher",
 }
 import collections
@@ -15,6 +15,11 @@ from harness.drivers import packet as P
 HASHES = [hashlib.sha1, hashlib.sha256, hashlib.sha384, hashlib.sha512]
 KEX = ["curve25519-sha256@libssh.org", "ecdh-sha2-nistp256", "ecdh-sha2-nistp384", "ecdh-sha2-nistp521",
        "diffie-hellman-group14-sha256", "diffie-hellman-group14-sha1", "diffie-hellman-group16-sha512", "diffie-hellman-group1-sha1"]
+
+
+KEX_HASH = {"curve25519-sha256@libssh.org": "sha256", "ecdh-sha2-nistp256": "sha256", "ecdh-sha2-nistp384": "sha384",
+            "ecdh-sha2-nistp521": "sha512", "diffie-hellman-group14-sha256": "sha256", "diffie-hellman-group14-sha1": "sha1",
+            "diffie-hellman-group16-sha512": "sha512", "diffie-hellman-group1-sha1": "sha1"}
 
 
 def rfc_letter(c2s, what):
@@ -83,7 +88,7 @@ def kex_records(log, intern):
 def run(c):
     rnd = random.Random(c.seed)
     # ---- M: the model with and without seeded defects, in one exploration
-    muts = {"swap", "last", "sid"}
+    muts = {"swap", "last", "sid", "oldhash"}
     n = 0
     for hl, iv, key, mac in ((20, 16, 32, 64), (32, 12, 16, 32)) if not c.quick else ((20, 16, 32, 64),):
         r = c.mc_holds("KeyDerivation", cfg_text(constants={"MaxKex": 2, "HLen": hl, "IvLen": iv, "KeyLen": key, "MacLen": mac,
@@ -137,9 +142,17 @@ def run(c):
                                 server_kw={"packetizer_class": KP}, ciphers=[cipher], macs=[mac], kex=[kex])
         try:
             want = 4
-            if not c.quick or i % 3 == 0:
+            rekeys = 0 if (c.quick and i % 3) else (1 if c.quick else 2)
+            used = [kex]
+            for _ in range(rekeys):
+                # the next exchange negotiates a kex method of ANOTHER hash family (either side may change its
+                # preferences between exchanges): its keys must be derived with ITS hash
+                nxt = rnd.choice([k for k in kexes if KEX_HASH[k] != KEX_HASH[used[-1]] and "group16" not in k])
+                used.append(nxt)
+                for t in (tc, ts):
+                    t.get_security_options().kex = (nxt,)
                 tc.renegotiate_keys()
-                want = 8
+                want += 4
             t_end = time.time() + 10          # the peer may still be switching its inbound keys
             # ("set" is the last thing an activation logs)
             while sum(1 for e in log if e[0] == "set") < want and time.time() < t_end:
@@ -150,7 +163,14 @@ def run(c):
         recs = kex_records(log, intern)
         if not recs:
             raise Machinery("no key activation logged for %s/%s" % (cipher, mac))
-        for rec in recs:
+        if len(recs) != len(used):
+            raise Machinery("%d key exchanges were run (%s) but %d were logged" % (len(used), used, len(recs)))
+        for rec, kx in zip(recs, used):
+            kex = kx
+            if rec["meta"]["hash"] != KEX_HASH[kx]:
+                raise Machinery("exchange %d of the session negotiated %s but its kex engine reports hash %s"
+                                % (rec["kexno"], kx, rec["meta"]["hash"]))
+            rec["meta"]["first_hash"] = KEX_HASH[used[0]]
             rec["meta"]["kex"] = kex
             batch.append({k: rec[k] for k in ("kind", "acts", "need")})
             meta.append(rec)
@@ -183,14 +203,16 @@ def run(c):
                          {"kind": "kex", "kexno": m["kexno"], "meta": m["meta"], "need": m["need"],
                           "acts": [{k: a[k] for k in ("role", "dir", "let", "size")} for a in m["acts"]]})
     rekeys = sum(1 for m in meta if m["kind"] == "kex" and m["kexno"] > 1)
-    if rekeys == 0:
-        raise Machinery("no re-key was exercised (session id != H case missing)")
+    other_hash = sum(1 for m in meta if m["kind"] == "kex" and m["kexno"] > 1 and m["meta"]["hash"] != m["meta"]["first_hash"])
+    if rekeys == 0 or other_hash == 0:
+        raise Machinery("no re-key (to a kex method of another hash family) was exercised: %d / %d" % (rekeys, other_hash))
+    c.extra["rekeys_to_another_hash"] = other_hash
     c.extra["compute_key_calls"] = n_compute
     c.extra["sessions"] = sessions
     c.extra["key_exchanges_logged"] = len(batch) - n_compute
     c.extra["rekeys_logged"] = rekeys
     c.rule = ("(a) _compute_key for every letter A-F x kex hash sha1/sha256/sha384/sha512 x lengths %s, random K of 1..4096 bits (+ mpint edge "
-              "cases), H, session id; (b) one real client/server session per cipher x MAC pair (%s) with rotating kex algorithm and a re-key, "
+              "cases), H, session id; (b) one real client/server session per cipher x MAC pair (%s) with rotating kex algorithm and re-keys that negotiate a kex method of another hash family, "
               "4 activations per exchange.  distinct = distinct (hash, letter, length) / (cipher, mac, kex, exchange number)"
               % ("1..139 + boundary values to 512 (one letter per hash) / 25 sampled (other letters)" if c.quick else "1..512", "half of them, seed-chosen" if c.quick else "all 72"))
     c.assumptions = ["the hash primitive itself (hashlib) is trusted", "K >= 1 (a zero shared secret cannot come out of a key exchange; mpint(0) is C39)", "K, H come from the key exchange (C06-C08)"]
